@@ -346,6 +346,10 @@ func (me *modelEnv) goExpr(name string, v Val, t types.Type) (string, bool) {
 			// nil interface (or unconstrained): contexts and gauges are passed as nil
 			return "nil", true
 		}
+		if t != nil && hasMethod(t, "MeterMemory") {
+			// contexts and gauges cannot be constructed; nil disables metering only
+			return "nil", true
+		}
 		ct, ok := me.prog.tagTypes[int(k.Int64())]
 		if !ok {
 			me.desc = append(me.desc, fmt.Sprintf("%s=<dynamic type #%s not constructible>", name, k))
@@ -643,6 +647,10 @@ func (p *Program) judge(fr *FuncResult, model map[string]string, oc *outcome, wo
 			return
 		}
 		entryEnv.bindLets(c, false)
+		// the contract's assumed lemma instances hold for the concrete input too
+		for _, a := range c.Assume {
+			pins = append(pins, entryEnv.termBool(a.Expr))
+		}
 		var conds []*Term
 		for _, f := range c.Fails {
 			conds = append(conds, entryEnv.termBool(f.Expr))
@@ -707,7 +715,23 @@ func (p *Program) judge(fr *FuncResult, model map[string]string, oc *outcome, wo
 			ex.resultMode = true
 			rv := ex.symVal(st, fmt.Sprintf("obs%d", i), results.At(i).Type(), 1)
 			ex.resultMode = false
-			ob.bind(rv, oc.Results[i], results.At(i).Type())
+			if iv, isI := rv.(IfaceV); isI && !oc.Results[i].Nil {
+				// observed dynamic type is known: make the result a concrete interface value
+				if ct := ob.lookupObservedType(oc.Results[i].Type); ct != nil {
+					ex.resultMode = true
+					pl := ex.symVal(st, fmt.Sprintf("obsP%d", i), ct, 1)
+					ex.resultMode = false
+					if _, opaque := pl.(OpaqueV); !opaque && (oc.Results[i].Int != "" || oc.Results[i].Bool != nil || len(oc.Results[i].Fields) > 0) {
+						ob.bind(pl, oc.Results[i], ct)
+					}
+					_ = iv
+					rv = IfaceV{Kind: IntC(int64(p.TypeTag(ct))), Conc: ct, Payload: pl}
+				} else {
+					ob.bind(rv, oc.Results[i], results.At(i).Type())
+				}
+			} else {
+				ob.bind(rv, oc.Results[i], results.At(i).Type())
+			}
 			nm := fmt.Sprintf("result%d", i)
 			vars[nm] = rv
 			if results.Len() == 1 {
